@@ -316,7 +316,7 @@ class AsynchronousDeferredRunTest(_DeferredRunTest):
         asynchronous Deferreds.  As such, we take the responsibility for
         running the cleanups, rather than letting TestCase do it.
         """
-        last_exception = None
+        failed = False
         while self.case._cleanups:
             f, args, kwargs = self.case._cleanups.pop()
             # (Called through a closure: maybeDeferred(f, *args, **kwargs) would
@@ -329,12 +329,13 @@ class AsynchronousDeferredRunTest(_DeferredRunTest):
             except BaseException:
                 # Also SystemExit and KeyboardInterrupt: the remaining
                 # cleanups still have to run, and RunTest re-raises these
-                # once the test has been reported.
-                exc_info = sys.exc_info()
-                self.case._report_traceback(exc_info)
-                if last_exception is None or isinstance(last_exception, Exception):
-                    last_exception = exc_info[1]
-        return last_exception
+                # once the test has been reported.  Every exception is
+                # recorded (as RunTest does), so that the outcome is chosen
+                # from all of them: a skip raised by a later cleanup must
+                # not mask the failure of an earlier one.
+                self._got_user_exception(sys.exc_info())
+                failed = True
+        return failed
 
     def _make_spinner(self):
         """Make the `Spinner` to be used to run the tests."""
@@ -358,9 +359,8 @@ class AsynchronousDeferredRunTest(_DeferredRunTest):
             """Run the cleanups."""
             d = self._run_cleanups()
 
-            def clean_up_done(result):
-                if result is not None:
-                    self._exceptions.append(result)
+            def clean_up_done(failed):
+                if failed:
                     fails.append(None)
 
             return d.addCallback(clean_up_done)
